@@ -250,12 +250,21 @@ func c10Unfolder(c *run.C) {
 			streams = []val.Stream{{{K: val.EArrStart, N: 2}, ev, ev, {K: val.EArrEnd}}}
 		}
 	}
-	c.Begin(map[string]interface{}{"type": t.String(), "streams": streams})
+	// the unfolder is a consumer in every configuration: a third of the cases
+	// run with the key cache enabled
+	cache := -1
+	if r.P(1, 3) {
+		cache = gen.Pick(r, []int{0, 1, 2, 8, 64})
+	}
+	c.Begin(map[string]interface{}{"type": t.String(), "streams": streams, "key_cache": cache})
 	runOne := func(expand bool) (reflect.Value, error, []int, bool) {
 		tgt := reflect.New(t)
 		u, err := gotype.NewUnfolder(nil)
 		if err != nil {
 			return tgt, err, nil, true
+		}
+		if cache >= 0 {
+			u.EnableKeyCache(cache)
 		}
 		var uerr error
 		ok := c.Guard(fmt.Sprintf("unfold.expand=%v", expand), func() {
@@ -298,6 +307,9 @@ func c10Unfolder(c *run.C) {
 		return
 	}
 	c.Observe("unfolder_pairs", 1)
+	if cache >= 0 {
+		c.Observe("unfolder_pairs_with_key_cache", 1)
+	}
 	if mode != 0 {
 		c.Observe("unfolder_typed_pairs", 1)
 	}
